@@ -677,6 +677,9 @@ fn g_unit(rng: &mut Rng) -> (String, bool) {
         17 | 18 | 19 => format!("{};2;{};{};{}", code, c(rng), c(rng), c(rng)),
         20 => format!("{}:5:{}", code, if rng.chance(1, 3) { bnd(rng, 255) } else { rng.below(256) }),
         27 => format!("{}", bnd(rng, 100_000)),
+        // numbers at and beyond the width of the integer types: 2^63, 2^64 - 1, 2^64, 20+ digits, 2^128
+        29 => (*rng.pick(&["9223372036854775808", "18446744073709551615", "18446744073709551616", "99999999999999999999",
+                           "100000000000000000000", "340282366920938463463374607431768211456", "4294967296", "65536"])).to_string(),
         28 => format!("{}{}5{}{}", code, if rng.chance(1, 2) { ';' } else { ':' }, if rng.chance(1, 2) { ';' } else { ':' }, bnd(rng, 300)),
         21 => format!("{}:2:{}:{}:{}", code, c(rng), c(rng), c(rng)),
         22 => format!("{}:2::{}:{}:{}", code, c(rng), c(rng), c(rng)),
@@ -806,6 +809,13 @@ pub fn generate(rng: &mut Rng, n: usize, tier: &str) -> Vec<Value> {
     for base in [30u64, 40, 90, 100] {
         for k in 0..8 {
             v.push(json!({"kind": "write", "f0": plain, "hist": [{"sgr": format!("{}", base + k)}, {"text": [121]}], "cuts": []}));
+        }
+    }
+    // 5c. numbers at the width of the integer types as a parameter of their own, before / after / between settings,
+    //     with attributes in effect from an earlier sequence
+    for big in ["18446744073709551615", "18446744073709551616", "99999999999999999999", "340282366920938463463374607431768211456", "9223372036854775808"] {
+        for p in [format!("3;{}", big), format!("{};3", big), format!("1;{};31", big), big.to_string(), format!("38;5;{}", big), format!("4:{}", big)] {
+            v.push(json!({"kind": "write", "f0": plain, "hist": [{"sgr": "1;4;32"}, {"text": [97]}, {"sgr": p}, {"text": [98]}], "cuts": []}));
         }
     }
     // ESC and the C1 introducers (written as U+FFFD) with their neighbours, alone and inside a stream
